@@ -2593,6 +2593,16 @@ hsStateDetermined:
         {
 #endif
             /* Support for fragmented handshake messages - non-DTLS */
+#ifdef USE_DTLS
+            if (ACTV_VER(ssl, v_dtls_any))
+            {
+                /* A DTLS handshake fragment never continues in the next
+                    record */
+                ssl->err = SSL_ALERT_DECODE_ERROR;
+                psTraceErrr("Invalid handshake length\n");
+                return MATRIXSSL_ERROR;
+            }
+#endif
             if (ssl->fragMessage == NULL)
             {
                 /* Initial indication there is a fragmented message */
